@@ -1,4 +1,4 @@
-import AnySyncModel.OCache.Lemmas
+import AnySyncModel.OCache.Inductive
 import AnySyncModel.OCache.Check
 /-!
 C16 — object cache: at most one live instance per id under any interleaving.
@@ -7,13 +7,14 @@ All statements quantify over every state reachable in the LTS of `OCache/LTS.lea
 schedules (`List Label`) of any number of threads, ids and operations, with every environment
 verdict (load ok / error, TryClose true / false / error) at every point.
 
-Status of the single inductive invariant `Inv = InvA ∧ InvB ∧ InvC ∧ InvD` (`OCache/Spec.lean`):
-* `Inv init` is proved; `Inv s → <each part of the property at s>` is proved (the `*_of_inv`
-  theorems, no extra hypothesis);
-* preservation of `Inv` by every transition is NOT proved in Lean (named gap `Inductive Inv`); it
-  is evaluated clause by clause on every state visited by the correspondence run (`inv=ok` in the
-  model's answers, `Check.invFail`). The `*_partial` theorems spell that hypothesis out; the `C16_*_full`
-  definitions are the statements without it.
+One inductive invariant `Inv = InvA ∧ InvB ∧ InvC ∧ InvD` (`OCache/Spec.lean`) carries everything:
+* `inv_holds_initially : Inv init`;
+* `inv_preserved : Inv s → next s l = some s' → Inv s'` — every transition label (the per-label lemmas
+  live in `OCache/StepA..StepD.lean`, built on the rely/guarantee frame lemmas of `Frame*.lean`);
+* `inv_reachable : Reachable s → Inv s` by induction over the schedule;
+* `Inv s → <each part of the property at s>` (the `*_of_inv` theorems).
+The seven parts are therefore proved at full strength (no extra hypothesis). The same invariant is
+also evaluated clause by clause on every state visited by the correspondence run (`Check.invFail`).
 -/
 namespace AnySync.Props.C16
 open AnySync.OCache
@@ -25,6 +26,7 @@ def C16_handed_out_are_loaded_full : Prop := ∀ s, Reachable s → HandedOutLoa
 def C16_no_double_close_full : Prop := ∀ s, Reachable s → NoDoubleClose s
 def C16_none_open_after_Close_full : Prop := ∀ s, Reachable s → NoneOpenAfterClose s
 def C16_removed_not_returned_later_full : Prop := ∀ s, Reachable s → RemovedNotReturned s
+def C16_removeSame_closes_only_target_full : Prop := ∀ s, Reachable s → RemoveSameOnlyTarget s
 def C16_no_panic_full : Prop := ∀ s, Reachable s → NoPanic s
 def C16_deadlock_free_full : Prop := ∀ s, Reachable s → DeadlockFree s
 
@@ -51,28 +53,51 @@ theorem deadlock_free_of_inv {s : State} (h : Inv s) : DeadlockFree s := deadloc
 /-- base case of the induction -/
 theorem inv_holds_initially : Inv init := inv_init
 
-/-! ### partial theorems: everything under the one named gap `Inductive Inv` -/
+/-! ### the invariant is inductive -/
 
-theorem one_live_instance_partial (hind : Inductive Inv) : C16_one_live_instance_full :=
-  fun s hr => one_live_instance_of_inv (reachable_of_inductive hind s hr)
+/-- every transition (spawn, internal step of any thread, any environment verdict) preserves `Inv` -/
+theorem inv_preserved {s s' : State} {l : Label} (h : Inv s) (hn : next s l = some s') : Inv s' :=
+  inv_next h hn
 
-theorem handed_out_are_loaded_partial (hind : Inductive Inv) : C16_handed_out_are_loaded_full :=
-  fun s hr => handed_out_are_loaded_of_inv (reachable_of_inductive hind s hr)
+/-- induction over the schedule -/
+theorem inv_reachable {s : State} (h : Reachable s) : Inv s := AnySync.OCache.inv_reachable h
 
-theorem no_double_close_partial (hind : Inductive Inv) : C16_no_double_close_full :=
-  fun s hr => no_double_close_of_inv (reachable_of_inductive hind s hr)
+/-! ### the seven parts of C16, over all schedules -/
 
-theorem none_open_after_Close_partial (hind : Inductive Inv) : C16_none_open_after_Close_full :=
-  fun s hr => none_open_after_Close_of_inv (reachable_of_inductive hind s hr)
+/-- at most one live instance per id at any time; a load for an id starts only after the previous
+instance's close has returned -/
+theorem one_live_instance : C16_one_live_instance_full :=
+  fun _ hr => one_live_instance_of_inv (inv_reachable hr)
 
-theorem removed_not_returned_later_partial (hind : Inductive Inv) : C16_removed_not_returned_later_full :=
-  fun s hr => removed_not_returned_later_of_inv (reachable_of_inductive hind s hr)
+/-- every instance handed to a caller had finished loading (and belongs to the id asked for) -/
+theorem handed_out_are_loaded : C16_handed_out_are_loaded_full :=
+  fun _ hr => handed_out_are_loaded_of_inv (inv_reachable hr)
 
-theorem no_panic_partial (hind : Inductive Inv) : C16_no_panic_full :=
-  fun s hr => no_panic_of_inv (reachable_of_inductive hind s hr)
+/-- no instance is closed twice; no Close/TryClose call starts on an instance that is not live -/
+theorem no_double_close : C16_no_double_close_full :=
+  fun _ hr => no_double_close_of_inv (inv_reachable hr)
 
-theorem deadlock_free_partial (hind : Inductive Inv) : C16_deadlock_free_full :=
-  fun s hr => deadlock_free_of_inv (reachable_of_inductive hind s hr)
+/-- nothing is left open (and the cache is empty) once `Close()` has returned -/
+theorem none_open_after_Close : C16_none_open_after_Close_full :=
+  fun _ hr => none_open_after_Close_of_inv (inv_reachable hr)
+
+/-- a lookup that starts after a removal completed never returns the removed instance -/
+theorem removed_not_returned_later : C16_removed_not_returned_later_full :=
+  fun _ hr => removed_not_returned_later_of_inv (inv_reachable hr)
+
+/-- identity-checked removal (the mechanism behind "conditional removal"): whatever happens between
+its identity check and its close, `RemoveSame(id, v)` never closes an instance other than `v` -/
+theorem removeSame_closes_only_target : C16_removeSame_closes_only_target_full :=
+  fun _ hr => removeSameOnlyTarget_of_inv (inv_reachable hr).a (inv_reachable hr).b
+
+/-- no operation panics -/
+theorem no_panic : C16_no_panic_full :=
+  fun _ hr => no_panic_of_inv (inv_reachable hr)
+
+/-- no operation blocks forever: while some thread has not returned, some label is enabled
+(environment verdicts — load finish, close return, TryClose answer — being always available) -/
+theorem deadlock_free : C16_deadlock_free_full :=
+  fun _ hr => deadlock_free_of_inv (inv_reachable hr)
 
 /-! ### non-vacuity: a concrete schedule (Get loads id 0 while Remove and a second Get race) -/
 
